@@ -1182,6 +1182,119 @@ fn known_inputs() -> Vec<(String, String)> {
     v.into_iter().map(|(n, s)| (n.to_string(), s)).collect()
 }
 
+
+// ---------------------------------------------------------------- directed boundary family
+
+fn num_lit(x: f64) -> String {
+    if x.is_nan() {
+        "NaN".into()
+    } else if x == f64::INFINITY {
+        "∞".into()
+    } else if x == f64::NEG_INFINITY {
+        "¯∞".into()
+    } else {
+        let a = x.abs();
+        let body = if a >= 1e9 { format!("1e{}", a.log10().round() as i32) } else { format!("{a}") };
+        if x < 0.0 { format!("¯{body}") } else { body }
+    }
+}
+
+/// every primitive that takes an index / count / amount / shape argument (plain, anti and under forms)
+/// x fill contexts x amounts around and far beyond the bounds of the array in both signs x arrays of
+/// rank 0-3 including empty axes.  `core` = the full cross product of a reduced lattice (quick);
+/// otherwise the complete lattice with per-axis amount lists.
+fn bounds_inputs(thorough: bool, r: &mut Rng) -> Vec<(String, String)> {
+    // (text, first-axis length, kind: 0 number, 1 char, 2 box)
+    let arrays_core: &[(&str, usize, u8)] = &[("[1 2 3 4 5]", 5, 0), ("↯3_3⇡9", 3, 0), ("[]", 0, 0), ("↯3_0 0", 3, 0), ("5", 1, 0), ("\"abcde\"", 5, 1)];
+    let arrays_more: &[(&str, usize, u8)] = &[
+        ("↯0_3 0", 0, 0),
+        ("↯2_3_2⇡12", 2, 0),
+        ("↯2_0_2 0", 2, 0),
+        ("[1]", 1, 0),
+        ("[0.5 NaN ∞]", 3, 0),
+        ("@a", 1, 1),
+        ("\"\"", 0, 1),
+        ("↯2_3\"abcdef\"", 2, 1),
+        ("↯0_3@a", 0, 1),
+        ("{1 \"ab\" [2 3]}", 3, 2),
+        ("□[1 2 3]", 1, 2),
+        ("↯2_2{1 2}", 2, 2),
+    ];
+    // plain dyadic forms: {} = the amount
+    let forms: &[&str] = &[
+        "↻ {} ", "↙ {} ", "↘ {} ", "⊡ {} ", "⊏ {} ", "▽ {} ", "↯ {} ", "☇ {} ", "⤸ {} ", "⧈∘ {} ", "⧈□ {} ", "⊏ [{} 0] ", "⊡ [{}] ", "▽ [{} 1] ",
+        "⌝↻ {} ", "⌝↙ {} ", "⌝↘ {} ", "⌝⊡ {} ", "⌝⊏ {} ", "⌝⤸ {} ", "⌝▽ {} ", "⌝☇ {} ",
+        "⍜(↻ {})⇌ ", "⍜(↙ {})⇌ ", "⍜(↘ {})⇌ ", "⍜(⊡ {})⇌ ", "⍜(⊏ {})⇌ ", "⍜(▽ {})⇌ ", "⍜(↯ {})⇌ ", "⍜(☇ {})⇌ ", "⍜(⤸ {})⇌ ", "⍜(↙ {})(↘1) ", "⍜(⊏ {})(×0) ", "⍜(⊡ {})(⊂.) ",
+        "≡(↻ {}) ", "≡(↙ {}) ", "∧(↻ {}) [1 2] ", "⊕□ {} ", "⊜□ {} ", "⧅< {} ", "⊂⇡ {} ",
+    ];
+    let fills_for = |kind: u8| -> &'static [&'static str] {
+        match kind {
+            0 => &["", "⬚0", "⬚∞"],
+            1 => &["", "⬚@x"],
+            _ => &["", "⬚0", "⬚(□0)"],
+        }
+    };
+    let amounts = |len: usize, full: bool| -> Vec<f64> {
+        let l = len as f64;
+        let mut v = vec![0.0, -1.0, l, -l, l + 1.0, -(l + 1.0), 2.0 * l + 1.0, -(2.0 * l + 1.0), 1e10, -1e10, f64::NAN, f64::INFINITY, 0.5];
+        if full {
+            v.extend([1.0, l - 1.0, -(l - 1.0), 1e19, -1e19, f64::NEG_INFINITY, -1.5, 4294967296.0, -4294967296.0, 65536.0, 9007199254740993.0, -0.0]);
+        }
+        v
+    };
+    let mut out: Vec<(String, String)> = Vec::new();
+    let mut seen: BTreeSet<String> = BTreeSet::new();
+    let mut push = |form: &str, fill: &str, amt: &str, arr: &str, out: &mut Vec<(String, String)>| {
+        let src = format!("{fill}{}{arr}", form.replace("{}", amt));
+        if seen.insert(src.clone()) {
+            let head: String = form.chars().take_while(|c| *c != ' ' && *c != '{').collect();
+            out.push((format!("{head}:{fill}:{amt}:{arr}"), src));
+        }
+    };
+    // core: full cross product
+    for form in forms {
+        for (arr, len, kind) in arrays_core {
+            for fill in fills_for(*kind).iter().take(2) {
+                for a in amounts(*len, false) {
+                    push(form, fill, &num_lit(a), arr, &mut out);
+                }
+            }
+        }
+    }
+    // per-axis lists on the core arrays (rank >= 2 and rank 1 with too many axes)
+    let pair_vals = [0.0, 1.0, -1.0, 4.0, -4.0, 7.0, -7.0, 1e10, -1e10, f64::INFINITY, f64::NAN];
+    let all_arrays: Vec<(&str, usize, u8)> = arrays_core.iter().chain(arrays_more.iter()).cloned().collect();
+    let npairs = if thorough { 40000 } else { 800 };
+    for _ in 0..npairs {
+        let form = *r.pick(forms);
+        let (arr, _, kind) = *r.pick(&all_arrays);
+        let fill = *r.pick(fills_for(kind));
+        let k = 2 + r.below(3);
+        let amt: Vec<String> = (0..k).map(|_| num_lit(*r.pick(&pair_vals))).collect();
+        push(form, fill, &amt.join("_"), arr, &mut out);
+    }
+    // the rest of the scalar lattice: all of it (thorough) or a sample (quick)
+    let mut rest: Vec<(String, String)> = Vec::new();
+    for form in forms {
+        for (arr, len, kind) in &all_arrays {
+            for fill in fills_for(*kind) {
+                for a in amounts(*len, true) {
+                    push(form, fill, &num_lit(a), arr, &mut rest);
+                }
+            }
+        }
+    }
+    if thorough {
+        out.extend(rest);
+    } else {
+        for _ in 0..800.min(rest.len()) {
+            let i = r.below(rest.len());
+            out.push(rest.swap_remove(i));
+        }
+    }
+    out
+}
+
 // ---------------------------------------------------------------- the pool
 
 #[derive(Clone)]
@@ -1292,6 +1405,14 @@ fn search(n: usize, thorough: bool) {
         }
         i.label = name;
         inputs.push(i);
+    }
+    {
+        let mut rb = Rng::new(seed ^ 0xB0D5);
+        for (label, src) in bounds_inputs(thorough, &mut rb) {
+            let mut i = mk("bounds", &label, src);
+            i.mask = ST_SPANS | ST_C_NORMAL | ST_RUN;
+            inputs.push(i);
+        }
     }
     let nfixed = inputs.len();
     // random families
